@@ -845,19 +845,27 @@ theorem pickle_keeps_config (dflt : List (PStr × StrClass)) (sc : Option (List 
     newTagInteresting mn (pickledStringContainers true dflt sc) nm = newTagInteresting mn sc nm ∧
     pickledStringContainers false dflt sc = some dflt := ⟨rfl, rfl, rfl⟩
 
-/-- Pickling with a builder *object* of any truth value: a truthy picklable builder keeps its table (`pickle_keeps_config`);
-    the code as it stands (`__setstate__`: `elif not self.builder`) swaps a FALSY one for a default `HTMLParserTreeBuilder`,
-    so the configuration survives exactly when the object is truthy or its table is the HTML default anyway. -/
-theorem unpickle_builder_truth_value (dflt htmlDflt : List (PStr × StrClass)) (sc : Option (List (PStr × StrClass))) :
-    pickledStringContainersObj true dflt htmlDflt ⟨sc, true⟩ = sc ∧
-    pickledStringContainersObj true dflt htmlDflt ⟨sc, false⟩ = some htmlDflt := ⟨rfl, rfl⟩
+/-- Pickling with a builder *object* of any truth value: a picklable builder keeps its table whatever its truth value
+    (`__setstate__` asks `is None` since ca31e7d), so the re-parse on unpickling and `new_tag` afterwards follow the same
+    `string_containers` as before the round trip. -/
+theorem unpickle_keeps_builder_object (dflt htmlDflt : List (PStr × StrClass)) (b : BuilderObj) (mn : List StrClass) (nm : PStr) :
+    pickledStringContainersObj true dflt htmlDflt b = b.sc ∧
+    newTagInteresting mn (pickledStringContainersObj true dflt htmlDflt b) nm = newTagInteresting mn b.sc nm := ⟨rfl, rfl⟩
 
-/-- witness of the known finding `C13-unpickle-falsy-builder`: a falsy builder configured with `string_containers={}`
-    comes back from a pickle round trip with the default table — `<script>` is a string container again -/
+/-- the code before the repair (`elif not self.builder`) swapped a FALSY builder for a default `HTMLParserTreeBuilder`:
+    the configuration survived exactly when the object was truthy or its table was the HTML default anyway -/
+theorem unpickle_builder_truth_value_old (dflt htmlDflt : List (PStr × StrClass)) (sc : Option (List (PStr × StrClass))) :
+    pickledStringContainersObjOld true dflt htmlDflt ⟨sc, true⟩ = sc ∧
+    pickledStringContainersObjOld true dflt htmlDflt ⟨sc, false⟩ = some htmlDflt := ⟨rfl, rfl⟩
+
+/-- witness of the repaired finding `C13-unpickle-falsy-builder`: under the old code a falsy builder configured with
+    `string_containers={}` came back from a pickle round trip with the default table — `<script>` a string container
+    again; under the repaired code it does not -/
 theorem unpickle_falsy_builder_witness :
-    pickledStringContainersObj true containers containers ⟨some [], false⟩ ≠ some [] ∧
-    newTagInteresting main (pickledStringContainersObj true containers containers ⟨some [], false⟩) (ofS "script") =
+    pickledStringContainersObjOld true containers containers ⟨some [], false⟩ ≠ some [] ∧
+    newTagInteresting main (pickledStringContainersObjOld true containers containers ⟨some [], false⟩) (ofS "script") =
       .ok (.many [.script]) ∧
+    pickledStringContainersObj true containers containers ⟨some [], false⟩ = some [] ∧
     newTagInteresting main (some []) (ofS "script") = .ok (.many main) := by decide
 
 /-- A builder object that happens to be falsy (`__len__() == 0`, `__bool__() == False`) is still a builder: tags made with
